@@ -392,7 +392,7 @@ def model_agrees(cases):
     """cases: [(slots, rows)] -> list of (case index, op index) where the model differs."""
     shard = 30
     texts = [coq_cases(cases[i:i + shard]) for i in range(0, len(cases), shard)]
-    outs = coq_eval_many('c05', texts)
+    outs = coq_eval_many('c05', texts, timeout=900)
     bad = []
     for k, out in enumerate(outs):
         vals = parse_eval(out)
